@@ -16,9 +16,12 @@ def cast_constant_of_shape(op, shape, scalar, dtype):
 
 
 def fused_cast_constant_of_shape(op, shape: ir.Value, scalar: ir.Attr, dtype: ir.Attr, **_):
-    # Cast scalar (a TensorProto attribute) to the specified dtype
-    scalar_value = scalar.value.numpy().item()
-    cast_value = ir.tensor([scalar_value], dtype=ir.DataType(dtype.as_int()))
+    # Cast scalar (a TensorProto attribute) to the specified dtype the way the Cast operator
+    # does (out-of-range integers wrap around): converting through a Python scalar raises
+    # for a value that does not fit the target type.
+    target_dtype = ir.DataType(dtype.as_int())
+    cast_array = scalar.value.numpy().reshape(-1)[:1].astype(target_dtype.numpy())
+    cast_value = ir.tensor(cast_array, dtype=target_dtype)
     return op.ConstantOfShape(shape, value=cast_value)
 
 
